@@ -67,10 +67,10 @@ func c29GenEnv(r *vRand) Envelope {
 	case 1:
 		e.Version = 1 << uint(r.Range(10, 52))
 	}
-	switch r.Intn(5) {
+	switch r.Intn(12) {
 	case 0:
-		e.Key = c29Str(r, 400) + "/" + strings.Repeat("k", r.Range(100, 600)) // long keys
-	case 1:
+		e.Key = c29Str(r, 200) + "/" + strings.Repeat("k", r.Range(100, 400)) // long keys
+	case 1, 2:
 		e.Bucket = strings.Repeat("😀", r.Range(1, 20)) // marker pushed nowhere: kfs_lfs is first
 	}
 	switch r.Intn(4) {
@@ -276,7 +276,7 @@ func TestVerifC29Gen(t *testing.T) {
 		addEnv("corpus-env-unicode", Envelope{Version: 1, Bucket: "bücket-😀", Key: "k/€/ <&>\"\\", SHA256: "ab", OriginalHeaders: map[string]string{"x-ü": "v\n"}})
 		addEnv("corpus-env-long", Envelope{Version: -7, Bucket: "b", Key: strings.Repeat("long/", 400), Size: 1<<53 - 1, SHA256: "ab"})
 		r := vNewRand(vSeed())
-		n := vN(700, 6000)
+		n := vN(400, 5000)
 		for i := 0; i < n; i++ {
 			rr := r.Fork()
 			if i%5 == 0 {
